@@ -50,7 +50,7 @@ for pid in ALL:
 
 manifest = {
     "version": 1,
-    "setup_cmd": "cd lean && lake build",
+    "setup_cmd": "cd lean && lake build " + " ".join(f"QuantemModel.Props.{c['property_id']} QuantemModel.Driver.{c['property_id']}" for c in checks),
     "hooks": {
         "guard": "QUANTEM_VERIF",
         "enable": "no source hooks are needed: faults and observations are injected from the harness process (monkeypatching at run time); the guard name is reserved",
